@@ -39,6 +39,22 @@ CLAIMED = {
             "Lean 4 theorems (humanized_exact, strict_parses, parse_format_id, region_refuses, uri_slash, parseRegion_sound) about a character-level model of the tokenizer and parsers + exhaustive differential sweep over all short strings",
             "Proof: well-formed numerals and regions parse to exactly what they denote (exact decimal scaling), format-then-parse is the identity for every good name and s<=e, each malformed class is refused, URIs split alike however the slash is written. The Lean scanner is compared with the real regex-based parser on every string up to length 6-7 over two alphabets.",
             "Trusted: Lean kernel; model tied by correspondence; ASCII input; Python re/Decimal/int primitives."),
+    "C10": ("DESIGN.md §5 C10",
+            "Lean 4 + Mathlib theorems (final_step_bound, variance_gives_delta, converged_rowsums_bound, cis_bound, marginalize_eq_rowsum, mask_iff, others_positive) + exact-rational executable model compared with balance_cooler, and the proved interval evaluated by Lean on converged float runs",
+            "Proof: when the variance test passes with tol*N < scale^2 every retained row sum of the filtered symmetric matrix under the returned weights lies in [1/(1+d), 1/(1-d)], d = sqrt(tol*N)/scale (per chromosome in cis mode); a weight is NaN exactly on the excluded bins or data-less domains, every other weight is positive. The Rat model is compared with the real code (masks exactly, weights to 1e-9, ties skipped) and real converged runs are checked against the proved interval. D17 (doubled diagonal at ignore_diags=0) and D18 (trans-only) are recorded findings with machine-checked witnesses and variant oracles.",
+            "Trusted: Lean kernel + Mathlib single modules; model tied by correspondence; IEEE rounding and libm log/exp not modelled (1e-9 slack, tie skipping); exact rationals limit compared runs to <=6 sweeps."),
+    "C14": ("DESIGN.md §5 C14",
+            "Lean 4 theorems (processSlice_spec, slice_rows, column_selection_commutes, annotate_correct for both strategy branches and every partial table, annotate_forms_agree, chrom_decode_agree) + exhaustive differential correspondence over all in-domain row keys, column subsets and contiguous bin-table parts",
+            "Proof: an in-domain row key on any table selector returns exactly the stored rows of the normalised range labelled with their row numbers for any column subset; column selection commutes with row selection; annotation against the whole table, a selector or any contiguous part containing the needed bins attaches each pixel's own two bins and keeps order and index. Real selectors and cooler.annotate are compared with the Lean table model.",
+            "Trusted: Lean kernel; model tied by correspondence; h5py slicing, pandas iloc/loc/concat, enum decoding are primitives."),
+    "C17": ("DESIGN.md §5 C17",
+            "Lean 4 theorems (scool_cell_reads, scool_bins_shared, scool_extra_cols_per_cell, scool_listing over a layered object-id file model) + differential correspondence incl. HDF5 object identity",
+            "Proof: for distinct valid cell names every cell reads exactly the pixels supplied for it over the common table, the chroms group and the three main bin columns of every cell are the root's objects, extra bin columns are per cell, the listing names exactly the given cells and the file is recognised. Real create_scool output is compared per cell and by HDF5 object address.",
+            "Trusted: Lean kernel; model tied by correspondence; HDF5 hard links/groups are primitives; listing order not promised (compared as sets)."),
+    "C18": ("DESIGN.md §5 C18",
+            "Lean 4 theorems (rename_names, rename_data_unchanged, rename_labels, rename_lookup, rename_lookup_stale, rename_compose, chain_observe for enum and integer encodings incl. the enum-header fallback) + differential correspondence over all partial injective maps and chains",
+            "Proof: renaming rewrites names in the original order and nothing else (lengths, codes, starts/ends, pixels, indexes, attributes); lookups by the new name return what the old name returned, stale names are not found, successive maps compose; the same object's cache equals a reopened one. Real rename_chroms is observed on the same object, after reopening and on raw datasets.",
+            "Trusted: Lean kernel; model tied by correspondence; HDF5 enum header limit is a model parameter (theorems hold for both outcomes)."),
 }
 
 NOT_YET = {}
